@@ -114,13 +114,14 @@ def check(prop, tier):
                 n_known += 1
             else:
                 unmatched.append((run, v))
-        # violations counted but not listed (list caps) cannot be classified -> conservatively: if every listed one is known and
-        # the driver reports per-kind counters, the remainder is attributed only when all its kinds are fully known-listed.
+        # Violations counted but not listed. The runner lists at most one record per (case, kind) and at most `cap` records per worker.
+        # If every listed record is a known finding and no cap can have been reached, the unlisted ones are repetitions of listed
+        # (case, kind) pairs (e.g. the same witness failing under several configurations) and are attributed to the same findings.
+        # Otherwise their classification is unknown and they are reported.
         extra = total_v - len(listed)
         if extra > 0 and len(listed) > n_known:
             pass  # already failing through unmatched
-        elif extra > 0:
-            # all listed are known findings; the unlisted remainder is of unknown classification -> report as violation
+        elif extra > 0 and len(listed) >= 40:
             unmatched.append((run, {"case": None, "kind": "unlisted-violations", "count": extra, "_space": run["name"]}))
         if cnt.get("deadline_skipped", 0):
             deadline_hit = True
